@@ -343,6 +343,21 @@ func Bin(op string, a, b *Term) *Term {
 		if op == "bvlshr" && b.isConst() && a.hi>>b.val == 0 {
 			return C(w, 0)
 		}
+		if op == "bvlshr" && b.isConst() && a.op == "zext" {
+			in := a.args[0]
+			if b.val >= uint64(in.w) {
+				return C(w, 0)
+			}
+			return ZExt(Bin("bvlshr", in, C(in.w, b.val)), w)
+		}
+		// constant shifts distribute over bitwise operators (keeps known bits visible)
+		if b.isConst() && op != "bvashr" && (a.op == "bvor" || a.op == "bvand" || a.op == "bvxor") {
+			return Bin(a.op, Bin(op, a.args[0], b), Bin(op, a.args[1], b))
+		}
+		// (x << s) >> s with x small enough is x
+		if op == "bvlshr" && b.isConst() && a.op == "bvshl" && a.args[1] == b && b.val < uint64(w) && bits.Len64(a.args[0].hi)+int(b.val) <= w {
+			return a.args[0]
+		}
 	case "bvand":
 		if a.isConst() && !b.isConst() {
 			a, b = b, a
@@ -363,6 +378,11 @@ func Bin(op string, a, b *Term) *Term {
 			}
 			if a.op == "bvand" && a.args[1].isConst() {
 				return Bin("bvand", a.args[0], C(w, a.args[1].val&b.val))
+			}
+			if a.op == "zext" {
+				// mask moves inside the extension (the upper bits are zero anyway)
+				in := a.args[0]
+				return ZExt(Bin("bvand", in, C(in.w, b.val)), w)
 			}
 			if a.op == "bvor" {
 				return Bin("bvor", Bin("bvand", a.args[0], b), Bin("bvand", a.args[1], b))
